@@ -217,6 +217,9 @@ class SymSet(SOpaque):
     def as_absset(self):
         return SymSet(self.name + "'", self.ksort, self.enc, self.term)
 
+    def havoc_inplace(self, I):
+        self.term = I.fresh("set", z3.SetSort(self.ksort))
+
     def getattr(self, I, name):
         if name == "add":
             def add(I2, a, k):
@@ -246,6 +249,9 @@ class SymDict(SOpaque):
 
     def _k(self, I, k):
         return _key_term(I, k)
+
+    def havoc_inplace(self, I):
+        self.term = I.fresh("map", z3.ArraySort(z3.StringSort(), self.vsort))
 
     def contains(self, I, k):
         return z3.Select(self.term, self._k(I, k)) != self.absent
@@ -302,6 +308,11 @@ class SymList(SOpaque):
     def contains(self, I, v):
         return z3.IsMember(I.to_str_term(v), self.members)
 
+    def havoc_inplace(self, I):
+        self.members = I.fresh("members", z3.SetSort(z3.StringSort()))
+        self.last = I.fresh("last", z3.StringSort())
+        self._nonempty = I.fresh("nonempty", z3.BoolSort())
+
     def getitem(self, I, key):
         if key != -1:
             raise Unsupported("only [-1] of a list of unknown length")
@@ -335,6 +346,10 @@ class CountList(SOpaque):
     def length(self, I):
         from .symexec import SInt
         return SInt(self.count)
+
+    def havoc_inplace(self, I):
+        self.count = I.fresh("count", z3.IntSort())
+        I.assume(self.count >= 0)
 
     def getattr(self, I, name):
         if name == "append":
